@@ -43,6 +43,15 @@ def programs(binops, unops):
             for sp in seps + [b' ' if u.isalpha() else b'']:
                 add(b'x = ' + u + b' ' + v)
                 add(b'x = ' + u + sp + v if not (u.isalpha() and sp == b'') else b'x = ' + u + b' ' + v)
+    # string literals whose VALUE has a byte the writer must escape, followed by each kind of continuation (a digit extends a
+    # decimal escape, a hex digit an \x escape): the writer re-spells strings, the value must survive
+    for q in (b'"', b"'"):
+        for byte in list(range(0, 16)) + [34, 39, 92, 127, 255]:
+            for cont in (b'', b'0', b'7', b'8', b'9', b'a', b'f', b' ', b'\\n'):
+                add(b'x = ' + q + (b'\\%03d' % byte) + cont + q)
+        for lit in (b'a\\nb', b'\\\\', b'\\x41', b'\\65', b'\\065', b'\\9', b'\\0', b'tab\\there', b'\\x0a8', b'\\1\\2\\3', b'\\0001', b'\\a\\b\\f\\r\\t\\v'):
+            add(b'x = ' + q + lit + q)
+            add(b'f(' + q + lit + q + b', 8)')
     for b in binops:
         for v in VALUES:
             add(b'x = ' + v + b' ' + b + b' a')
